@@ -11,8 +11,11 @@
   homomorphism for delimiter-balanced lists with its corollaries `resolve_dup` (a repeated
   template is circular only if one copy is — the D16 clause) and `resolve_text_preserved`.
 
-  NOT proved (statements kept visible at the end of the file): `cycle_iff_onStack`,
-  `resolve_terminates` / `resolve_terminates_flat_partial`, `resolve_refines_evalT`.
+  Also proved (see the sections below and the status block at the end of the file):
+  `cycle_iff_onStack` (true cycles only), termination for delimiter-balanced tables and under
+  the finite-reach hypothesis, the REFUTATION of general termination
+  (`resolve_diverges_counterexample`: a 2-entry table with unbalanced values on which no fuel
+  suffices; the Go code overflows its stack), and `resolve_refines_evalT` on the flat fragment.
 -/
 import YtkProofs.Resolver
 import YtkProofs.ResolverSem
